@@ -115,6 +115,7 @@ def check(run, replay, prop):
         scheds.append((gen("a", n, 9, docs='{"d1","d2"}', txns="{1,2}", maxval=2), "plain"))
         scheds.append((gen("b", n // 2, 12, docs='{"d1","d2","d3"}', txns="{1,2,3}", maxval=2), "plain"))
         scheds.append((gen("c", n // 3, 9, docs='{"d1","d2"}', txns="{1,2}", maxval=2), "indexed"))
+        scheds.append((gen("e", n // 3, 9, docs='{"d1","d2"}', txns="{1,2}", maxval=2), "concurrent"))
         if prop == "C20" or thorough:
             scheds.append((gen("d", n // 3, 9, docs='{"d1","d2"}', txns="{1,2}", maxval=2), "branchable"))
         if thorough:
